@@ -12,7 +12,7 @@ import re
 from . import common
 from .common import Check, iter_joined
 
-FINDINGS = ("typeless-elem-array", "nonsymbol-key", "untyped-array-panic", "instance-type-by-name", "late-adoption", "clonefrom-aliasing")
+FINDINGS = ("nonsymbol-key", "instance-type-by-name", "late-adoption", "clonefrom-aliasing")
 
 
 def split_obs(s):
@@ -33,51 +33,6 @@ def insts(dump):
         if m:
             d[int(m.group(1))] = m.group(2)
     return reg, d
-
-
-def crashy_tokens(toks):
-    """is the value (prefix tokens) a non-empty array whose first element has no type?"""
-    if not toks or not re.match(r"A[1-9]", toks[0]):
-        return False
-    f = toks[1]
-    if f in ("N", "Q", "H"):
-        return True
-    if f.startswith("A"):
-        return crashy_tokens(toks[1:])
-    return False
-
-
-def value_tokens(op):
-    t = op.split()
-    if t[0] == "W":
-        return [t[4:]]
-    if t[0] == "N":
-        return [t[4:]]
-    if t[0] == "R":
-        return [t[2:]]
-    if t[0] == "C":
-        # C id s n (key val)*: every position that starts a value
-        return [t[i:] for i in range(5, len(t))]
-    return []
-
-
-def typeless_first(toks, prev):
-    """array whose (nested) first element is a plain hash or a record of a never-declared type"""
-    if not toks or not re.match(r"A[1-9]", toks[0]):
-        return False
-    f = toks[1]
-    if f == "H":
-        return True
-    if f.startswith("A"):
-        return typeless_first(toks[1:], prev)
-    m = re.match(r"@(\d+)$", f)
-    if m:
-        reg, d = insts(prev)
-        inst = d.get(int(m.group(1)), "")
-        mm = re.match(r"(\d+)/", inst)
-        if mm and re.search(r"[\[,]%s=b\d+" % mm.group(1), reg):
-            return True
-    return False
 
 
 def target_of(op):
@@ -124,10 +79,6 @@ def analyse0(hist, impl, model, spec):
             tgt = target_of(op)
             if io == "P":
                 fail = "a Go panic escaped the interpreter instead of an error being reported"
-                # narrow: the model predicts this very panic (its only crash sites are TypeCheckField's
-                # nil observed type / SliceOf of a type without TypeCache) on a route without recover
-                if mk == ik and ((t[0] == "W" and t[1] in "dxl") or t[0] == "N"):
-                    finding = "untyped-array-panic"
             elif io == "K":
                 if sk.startswith("E"):
                     fail = "accepted although the specification demands a rejection (%s)" % sk[1:]
@@ -135,8 +86,6 @@ def analyse0(hist, impl, model, spec):
                         finding = "nonsymbol-key"
                     elif sk == "Estale":
                         finding = "instance-type-by-name"
-                    elif sk == "Etype" and mk == ik and any(typeless_first(v, prev) for v in value_tokens(op)):
-                        finding = "typeless-elem-array"
                 elif sk[2:] != idump:
                     fail = "accepted, but the resulting state is not the one the specification allows"
                     _, a = insts(idump)
